@@ -116,6 +116,17 @@ func (lc *linCtx) lenVar(x ssa.Value) linExpr {
 	name := "len:" + lc.id(x)
 	e := linVar(name)
 	lc.facts = append(lc.facts, e) // len >= 0
+	// parallel slices: fields of one struct that only ever grow together have the same length
+	if n, fi := sliceFieldOf(lc.strip(x)); n != nil && lc.c != nil {
+		own := "." + n.Underlying().(*types.Struct).Field(fi).Name() + "))"
+		if strings.HasSuffix(name, own) {
+			for _, sib := range lc.c.lenEqSiblings(n, fi) {
+				sn := strings.TrimSuffix(name, own) + "." + n.Underlying().(*types.Struct).Field(sib).Name() + "))"
+				se := linVar(sn)
+				lc.facts = append(lc.facts, se, geq(e, se), geq(se, e))
+			}
+		}
+	}
 	if mk, ok := lc.strip(x).(*ssa.MakeSlice); ok {
 		n := lc.of(mk.Len)
 		lc.facts = append(lc.facts, geq(e, n), geq(n, e))
@@ -956,4 +967,157 @@ func (c *Ctx) linInRange(ins ssa.Instruction, base, lo, hi ssa.Value, isIndex bo
 		fmt.Printf("  base unsat (facts alone): %v\n", fmUnsat(lc.facts))
 	}
 	return lc.prove(elo) && lc.prove(geq(ehi, elo)) && lc.prove(geq(ln, ehi))
+}
+
+// sliceFieldOf: v is the value of a field of a product struct (a load through a field address, or a field of a
+// struct value): the struct type and the field index.
+func sliceFieldOf(v ssa.Value) (*types.Named, int) {
+	switch x := v.(type) {
+	case *ssa.UnOp:
+		if fa, ok := x.X.(*ssa.FieldAddr); ok && x.Op == token.MUL {
+			if n, ok := deref(fa.X.Type()).(*types.Named); ok {
+				return n, fa.Field
+			}
+		}
+	case *ssa.Field:
+		if n, ok := x.X.Type().(*types.Named); ok {
+			return n, x.Field
+		}
+	}
+	return nil, 0
+}
+
+// lenEqSiblings: the other slice fields of struct n that provably have the same length as field fi at all times:
+// the only writes to either field, anywhere in product code, are `x.f = append(x.f, one element)` paired in the same
+// basic block with `x.g = append(x.g, one element)` on the same x; no composite literal sets either field; the
+// address of neither field is taken for anything but these loads and stores.
+func (c *Ctx) lenEqSiblings(n *types.Named, fi int) []int {
+	if c.lenEq == nil {
+		c.lenEq = map[*types.Named]map[int][]int{}
+	}
+	if m, ok := c.lenEq[n]; ok {
+		return m[fi]
+	}
+	P := c.P
+	res := map[int][]int{}
+	c.lenEq[n] = res
+	st, ok := n.Underlying().(*types.Struct)
+	if !ok || P.moduleStruct(n) == nil {
+		return nil
+	}
+	var sliceFields []int
+	for i := 0; i < st.NumFields(); i++ {
+		if _, isS := st.Field(i).Type().Underlying().(*types.Slice); isS {
+			sliceFields = append(sliceFields, i)
+		}
+	}
+	if len(sliceFields) < 2 {
+		return nil
+	}
+	// per field: is every write a one-element self-append; (block, base) of each such append
+	type site struct {
+		b    *ssa.BasicBlock
+		base ssa.Value
+	}
+	disciplined := map[int]bool{}
+	appends := map[int][]site{}
+	for _, f := range sliceFields {
+		disciplined[f] = true
+	}
+	oneElemSelfAppend := func(st *ssa.Store, fa *ssa.FieldAddr) bool {
+		call, ok := st.Val.(*ssa.Call)
+		if !ok {
+			return false
+		}
+		if b, isB := call.Call.Value.(*ssa.Builtin); !isB || b.Name() != "append" || len(call.Call.Args) != 2 {
+			return false
+		}
+		ld, ok := call.Call.Args[0].(*ssa.UnOp)
+		if !ok || ld.Op != token.MUL {
+			return false
+		}
+		fa0, ok := ld.X.(*ssa.FieldAddr)
+		if !ok || fa0.X != fa.X || fa0.Field != fa.Field {
+			return false
+		}
+		sl, ok := call.Call.Args[1].(*ssa.Slice)
+		if !ok || sl.Low != nil || sl.High != nil {
+			return false
+		}
+		al, ok := sl.X.(*ssa.Alloc)
+		if !ok {
+			return false
+		}
+		arr, ok := deref(al.Type()).Underlying().(*types.Array)
+		return ok && arr.Len() == 1
+	}
+	for _, fn := range P.ModFuncs {
+		allInstrs(fn, func(b *ssa.BasicBlock, ins ssa.Instruction) {
+			fa, ok := ins.(*ssa.FieldAddr)
+			if !ok {
+				return
+			}
+			if nn, _ := deref(fa.X.Type()).(*types.Named); nn != n || !disciplined[fa.Field] {
+				if nn != n {
+					return
+				}
+			}
+			if _, tracked := disciplined[fa.Field]; !tracked {
+				return
+			}
+			refs := fa.Referrers()
+			if refs == nil {
+				return
+			}
+			for _, r := range *refs {
+				switch x := r.(type) {
+				case *ssa.UnOp:
+					if x.Op != token.MUL {
+						disciplined[fa.Field] = false
+					}
+				case *ssa.Store:
+					if x.Addr != fa {
+						disciplined[fa.Field] = false // the field's address is stored somewhere
+						continue
+					}
+					if oneElemSelfAppend(x, fa) {
+						appends[fa.Field] = append(appends[fa.Field], site{x.Block(), fa.X})
+					} else {
+						disciplined[fa.Field] = false
+					}
+				case *ssa.DebugRef:
+				default:
+					disciplined[fa.Field] = false
+				}
+			}
+		})
+	}
+	for _, f := range sliceFields {
+		for _, g := range sliceFields {
+			if f == g || !disciplined[f] || !disciplined[g] || len(appends[f]) != len(appends[g]) {
+				continue
+			}
+			// every append to f has its partner on g in the same block on the same struct, and vice versa
+			match := func(a, b []site) bool {
+				used := make([]bool, len(b))
+				for _, s := range a {
+					found := false
+					for j, t := range b {
+						if !used[j] && s.b == t.b && s.base == t.base {
+							used[j], found = true, true
+							break
+						}
+					}
+					if !found {
+						return false
+					}
+				}
+				return true
+			}
+			if match(appends[f], appends[g]) {
+				res[f] = append(res[f], g)
+			}
+		}
+	}
+	return res[fi]
 }
